@@ -6,6 +6,8 @@ export GOFLAGS=-mod=mod GOPROXY=off GOSUMDB=off GOTOOLCHAIN=local
 mkdir -p build evidence
 (cd tools/go2v && go build -o ../../build/go2v .)
 ./build/go2v -repo "${VERIF_REPO:-/repo}" -out coq/gen || echo "setup: go2v reported problems (checks will report them)"
+(cd tools/go2eff && go build -o ../../build/go2eff .)
+./build/go2eff -repo "${VERIF_REPO:-/repo}" -out coq/gen || echo "setup: go2eff reported problems (checks will report them)"
 (cd coq && coq_makefile -f _CoqProject -o Makefile >/dev/null && timeout 3000 make -j16 2>&1 | grep -v conda | tail -5)
 python3 - <<'PY'
 import sys, os
